@@ -332,13 +332,18 @@ def peeledAfter (d : Disk) (ref : Name) (target : Val) : Map :=
   | some old => if old != target then d.peeled.del ref else d.peeled
   | none => d.peeled
 
-/-- the loop of `add_packed_refs` (entries other than HEAD): the value goes into the packed map, a stale
-peeled value is dropped, the loose file is removed (after the new packed-refs is in place; errors
-suppressed: a directory stays) -/
+/-- `_prune_loose_ref(ref, target)`: the loose file is removed only if (under its lock) it still reads as
+the value that was packed; a missing, unreadable or different loose file stays -/
+def filesAfterPrune (d : Disk) (ref : Name) (target : Val) : Map :=
+  if d.readLoose ref == some target then d.files.del ref else d.files
+
+/-- the loop of `add_packed_refs(…, prune_only_if_unchanged=True)` as `pack_refs` calls it (entries other
+than HEAD): the value goes into the packed map, a stale peeled value is dropped, and — once the new
+packed-refs is in place — the loose file is pruned -/
 def addPacked (d : Disk) : List (Name × Val) → Disk
   | [] => d
   | (ref, target) :: rest =>
-    addPacked { d with files := d.files.del ref, peeled := d.peeledAfter ref target,
+    addPacked { d with files := d.filesAfterPrune ref target, peeled := d.peeledAfter ref target,
                        packed := d.packed.set ref target } rest
 
 /-- the selection loop of `pack_refs`: the ref's own value (`read_ref`, not followed); HEAD, missing or
